@@ -84,6 +84,12 @@ theorem vmfKappa_range (D : Nat) (lo hi q : ℝ) (hlh : lo ≤ hi) : lo ≤ vmfK
   simp only [vmfKappa]
   split_ifs <;> constructor <;> linarith
 
+/-- TOTALISATION REMARK.  At mean resultant length exactly 1 (hard start on noise-free data) Banerjee's quotient is
+`(D−1)/0`: `0` in `ℝ` (then clipped UP to `lo`), `+inf` in floating point (then clipped DOWN to `hi`).  The model over
+`ℝ` and the code therefore disagree on this one value; no theorem of this file uses it — only `vmfKappa_range`. -/
+theorem vmfKappa_one (D : Nat) (lo hi : ℝ) (hlo : 0 < lo) (hlh : lo ≤ hi) : vmfKappa D lo hi 1 = lo := by
+  simp only [vmfKappa, lt_irrefl, if_false, mul_one, sub_self, div_zero, if_pos hlo, if_neg (not_lt.mpr hlh)]
+
 /-- the three fields of the vMF M-step in `Finset.sum` form -/
 theorem vmfMstep_fields {N D : Nat} (lnorm : ℝ → ℝ) (lo hi tinyV : ℝ) (w aux : Fin N → ℝ) (y : Fin N → Fin D → ℝ) :
     (∀ d, rd (vmfMstep lnorm lo hi tinyV N w aux y).mean d
@@ -96,10 +102,11 @@ theorem vmfMstep_fields {N D : Nat} (lnorm : ℝ → ℝ) (lo hi tinyV : ℝ) (w
   · simp only [vmfMstep, vmfKappa, rd_tab, vsum_eq_sum, transc_sqrt_real]
 
 theorem rho_sq (K : Nat) (g h : ℝ) : rho K g h * rho K g h = g * g + K * (h * h) :=
-  Real.mul_self_sqrt (by positivity)
+  Real.mul_self_sqrt (add_nonneg (mul_self_nonneg g) (mul_nonneg (Nat.cast_nonneg K) (mul_self_nonneg h)))
 
 theorem rho_pos (K : Nat) (g h : ℝ) (hg : 0 < g) : 0 < rho K g h :=
-  Real.sqrt_pos.mpr (by positivity)
+  Real.sqrt_pos.mpr
+    (add_pos_of_pos_of_nonneg (mul_pos hg hg) (mul_nonneg (Nat.cast_nonneg K) (mul_self_nonneg h)))
 
 /-- Cauchy–Schwarz: a two-level vector of total `g + K h = 1` has length at least `1/√(K+1)` -/
 theorem rho_lower (K : Nat) (g h : ℝ) (hgh : g + K * h = 1) : 1 / Real.sqrt ((K+1 : ℕ) : ℝ) ≤ rho K g h := by
@@ -159,5 +166,429 @@ theorem vmfMstep_twoLevel (ha : OrthoProtoR a) (hy : ∀ n d, y n d = a (c n) d)
   rw [hm, hn, max_eq_left hguard, hr, mul_div_mul_left _ _ hS.ne']
 
 end mstep
+
+/-! ### the balanced invariant and the E-step -/
+section balanced
+variable {K N D : Nat} {a : Fin (K+1) → Fin D → ℝ} {c : Fin N → Fin (K+1)} {y : Fin N → Fin D → ℝ}
+
+/-- all mean directions are the normalised two-level combinations `(g·a_k + h·Σ_{j≠k} a_j)/ρ` of the prototypes, one
+common concentration and log-normaliser -/
+def VBalanced (a : Fin (K+1) → Fin D → ℝ) (θ : Mixture (Vmf ℝ D) ℝ (K+1) N) (g h κ ℓ : ℝ) : Prop :=
+  ∀ k, (∀ d, rd (θ.c k).mean d = (∑ j, (if j = k then g else h) * a j d) / rho K g h)
+    ∧ (θ.c k).kappa = κ ∧ (θ.c k).logNorm = ℓ
+
+/-- inner product of a balanced mean direction with a prototype: `g/ρ` on its own, `h/ρ` on the others -/
+theorem vbalanced_inner (ha : OrthoProtoR a) (θ : Mixture (Vmf ℝ D) ℝ (K+1) N) (g h κ ℓ : ℝ)
+    (hb : VBalanced a θ g h κ ℓ) (k i : Fin (K+1)) :
+    ∑ d, a i d * rd (θ.c k).mean d = (if i = k then g else h) / rho K g h := by
+  simp only [(hb k).1, mul_div_assoc']
+  rw [← Finset.sum_div, inner_comb ha (fun j => if j = k then g else h) i]
+
+/-- the vMF log-density of a balanced model at a noise-free observation -/
+theorem vmfLogPdf_balanced (ha : OrthoProtoR a) (hy : ∀ n d, y n d = a (c n) d)
+    (θ : Mixture (Vmf ℝ D) ℝ (K+1) N) (g h κ ℓ : ℝ) (hb : VBalanced a θ g h κ ℓ) (k : Fin (K+1)) (n : Fin N) :
+    vmfLogPdf (θ.c k) (y n) = κ * ((if c n = k then g else h) / rho K g h) - ℓ := by
+  simp only [vmfLogPdf, vsum_eq_sum, hy]
+  rw [vbalanced_inner ha θ g h κ ℓ hb, (hb k).2.1, (hb k).2.2]
+
+/-- the posterior of a balanced model with uniform weights is again two-level -/
+theorem eStep_vbalanced (ha : OrthoProtoR a) (hy : ∀ n d, y n d = a (c n) d) (lnorm : ℝ → ℝ) (lo hi tinyV : ℝ)
+    (tiny : ℝ) (htiny : 0 < tiny) (ht : tiny ≤ 1 / ((K+1 : ℕ) : ℝ))
+    (θ : Mixture (Vmf ℝ D) ℝ (K+1) N) (g h κ ℓ : ℝ) (hb : VBalanced a θ g h κ ℓ)
+    (hw : ∀ k n, θ.w k n = 1 / ((K+1 : ℕ) : ℝ)) (k : Fin (K+1)) (n : Fin N) :
+    eStep tiny (vmfFamily D lnorm lo hi tinyV) θ y k n
+      = if c n = k
+        then Real.exp (κ * (g / rho K g h))
+          / (Real.exp (κ * (g / rho K g h)) + K * Real.exp (κ * (h / rho K g h)))
+        else Real.exp (κ * (h / rho K g h))
+          / (Real.exp (κ * (g / rho K g h)) + K * Real.exp (κ * (h / rho K g h))) := by
+  rw [eStep_bayes tiny htiny _ θ y (fun k n => by rw [hw]; exact ht)]
+  set Eg := Real.exp (κ * (g / rho K g h)) with hEg
+  set Eh := Real.exp (κ * (h / rho K g h)) with hEh
+  have hexp : ∀ j, Real.exp ((vmfFamily D lnorm lo hi tinyV).logPdf (θ.c j) (y n))
+      = (if c n = j then Eg else Eh) * Real.exp (-ℓ) := by
+    intro j
+    show Real.exp (vmfLogPdf (θ.c j) (y n)) = _
+    rw [vmfLogPdf_balanced ha hy θ g h κ ℓ hb, sub_eq_add_neg, Real.exp_add]
+    split <;> rfl
+  simp only [hw, hexp]
+  have hsum : ∑ j : Fin (K+1), 1 / ((K+1 : ℕ) : ℝ) * ((if c n = j then Eg else Eh) * Real.exp (-ℓ))
+      = 1 / ((K+1 : ℕ) : ℝ) * Real.exp (-ℓ) * (Eg + K * Eh) := by
+    rw [← sum_lev' (c n) Eg Eh, Finset.mul_sum]
+    exact Finset.sum_congr rfl fun j _ => by ring
+  rw [hsum]
+  have h1 : (0:ℝ) < 1 / ((K+1 : ℕ) : ℝ) := by positivity
+  have h2 : 0 < Real.exp (-ℓ) := Real.exp_pos _
+  have h3 : 0 < Eg + K * Eh := by positivity
+  split <;> field_simp
+
+/-- the next two-level posterior `(g', h')` computed from `(g, h)` by one M-step and one E-step -/
+noncomputable def vmfNext (D K : Nat) (lo hi : ℝ) (p : ℝ × ℝ) : ℝ × ℝ :=
+  let ρ := rho K p.1 p.2
+  let κ := vmfKappa D lo hi ρ
+  (Real.exp (κ * (p.1 / ρ)) / (Real.exp (κ * (p.1 / ρ)) + K * Real.exp (κ * (p.2 / ρ))),
+   Real.exp (κ * (p.2 / ρ)) / (Real.exp (κ * (p.1 / ρ)) + K * Real.exp (κ * (p.2 / ρ))))
+
+/-- the two posterior levels the `i`-th M-step (`i = 0, 1, …`) is computed from -/
+noncomputable def levSeq (D K : Nat) (lo hi g₀ h₀ : ℝ) : Nat → ℝ × ℝ
+  | 0 => (g₀, h₀)
+  | i+1 => vmfNext D K lo hi (levSeq D K lo hi g₀ h₀ i)
+
+/-- a proper two-level posterior: sums to one, true class strictly the largest -/
+def LevOk (K : Nat) (p : ℝ × ℝ) : Prop := p.1 + K * p.2 = 1 ∧ 0 ≤ p.2 ∧ p.2 < p.1
+
+theorem LevOk.pos {K : Nat} {p : ℝ × ℝ} (h : LevOk K p) : 0 < p.1 := lt_of_le_of_lt h.2.1 h.2.2
+
+theorem levOk_next (D K : Nat) (lo hi : ℝ) (hlo : 0 < lo) (hlh : lo ≤ hi) (p : ℝ × ℝ) (hp : LevOk K p) :
+    LevOk K (vmfNext D K lo hi p) := by
+  have hρ := rho_pos K p.1 p.2 hp.pos
+  have hκ : 0 < vmfKappa D lo hi (rho K p.1 p.2) := lt_of_lt_of_le hlo (vmfKappa_range D lo hi _ hlh).1
+  have hlt : vmfKappa D lo hi (rho K p.1 p.2) * (p.2 / rho K p.1 p.2)
+      < vmfKappa D lo hi (rho K p.1 p.2) * (p.1 / rho K p.1 p.2) :=
+    mul_lt_mul_of_pos_left (div_lt_div_of_pos_right hp.2.2 hρ) hκ
+  have hE := Real.exp_lt_exp.mpr hlt
+  have hEh := Real.exp_pos (vmfKappa D lo hi (rho K p.1 p.2) * (p.2 / rho K p.1 p.2))
+  have hEg := Real.exp_pos (vmfKappa D lo hi (rho K p.1 p.2) * (p.1 / rho K p.1 p.2))
+  have hden : 0 < Real.exp (vmfKappa D lo hi (rho K p.1 p.2) * (p.1 / rho K p.1 p.2))
+      + K * Real.exp (vmfKappa D lo hi (rho K p.1 p.2) * (p.2 / rho K p.1 p.2)) := by positivity
+  refine ⟨?_, ?_, ?_⟩
+  · simp only [vmfNext]
+    field_simp
+  · simp only [vmfNext]
+    positivity
+  · simp only [vmfNext]
+    exact div_lt_div_of_pos_right hE hden
+
+theorem levOk_seq (D K : Nat) (lo hi : ℝ) (hlo : 0 < lo) (hlh : lo ≤ hi) (g₀ h₀ : ℝ) (h0 : LevOk K (g₀, h₀)) (i : Nat) :
+    LevOk K (levSeq D K lo hi g₀ h₀ i) := by
+  induction i with
+  | zero => exact h0
+  | succ i ih => exact levOk_next D K lo hi hlo hlh _ ih
+
+/-- with at least two classes and a positive leak the mean resultant length is strictly below 1: Banerjee's quotient
+`(r̄·D − r̄³)/(1 − r̄²)` is then a genuine division -/
+theorem rho_lt_one (K : Nat) (hK : 1 ≤ K) (p : ℝ × ℝ) (hp : LevOk K p) (hh : 0 < p.2) : rho K p.1 p.2 < 1 := by
+  have hK' : (1:ℝ) ≤ K := by exact_mod_cast hK
+  have hg := hp.pos
+  have hρ := rho_pos K p.1 p.2 hg
+  have hsq := rho_sq K p.1 p.2
+  have h1 : p.1 * p.1 + K * (p.2 * p.2) < 1 := by
+    have e : (1:ℝ) = (p.1 + K * p.2) * (p.1 + K * p.2) := by rw [hp.1]; ring
+    rw [e]
+    have : 0 < (K:ℝ) * (p.1 * p.2) := mul_pos (by linarith) (mul_pos hg hh)
+    nlinarith [mul_nonneg (mul_nonneg (by linarith : (0:ℝ) ≤ K) (by linarith : (0:ℝ) ≤ (K:ℝ) - 1)) (mul_self_nonneg p.2)]
+  nlinarith
+
+/-- every iterate after the first has a positive leak (so the division by zero at `r̄ = 1` can only occur in the very
+first M-step, and only from the hard start `h₀ = 0`) -/
+theorem levSeq_succ_pos (D K : Nat) (lo hi g₀ h₀ : ℝ) (i : Nat) : 0 < (levSeq D K lo hi g₀ h₀ (i+1)).2 := by
+  simp only [levSeq, vmfNext]
+  positivity
+
+theorem rho_levSeq_lt_one (D K : Nat) (hK : 1 ≤ K) (lo hi : ℝ) (hlo : 0 < lo) (hlh : lo ≤ hi) (g₀ h₀ : ℝ)
+    (h0 : LevOk K (g₀, h₀)) (i : Nat) (hi0 : 0 < h₀ ∨ 1 ≤ i) :
+    rho K (levSeq D K lo hi g₀ h₀ i).1 (levSeq D K lo hi g₀ h₀ i).2 < 1 := by
+  apply rho_lt_one K hK _ (levOk_seq D K lo hi hlo hlh g₀ h₀ h0 i)
+  cases i with
+  | zero =>
+    rcases hi0 with h | h
+    · exact h
+    · omega
+  | succ i => exact levSeq_succ_pos D K lo hi g₀ h₀ i
+
+end balanced
+
+/-! ### induction over the EM loop -/
+section chain
+variable {K N D : Nat} {a : Fin (K+1) → Fin D → ℝ} {c : Fin N → Fin (K+1)} {y : Fin N → Fin D → ℝ}
+  (lnorm : ℝ → ℝ) (lo hi tinyV : ℝ) (tiny : ℝ) (rule : WeightRule) (tie : Tying N) (eps : ℝ) (s : Fin N → ℝ)
+
+theorem uniform_w_gen {Θ Y : Type} (fam : Family Θ Y ℝ) (y : Fin N → Y) (htie : tie.uniform = true)
+    (γ aux : Fin (K+1) → Fin N → ℝ) (k : Fin (K+1)) (n : Fin N) :
+    (mStep fam rule tie eps s y γ aux).w k n = 1 / ((K+1 : ℕ) : ℝ) := by
+  simp [Mixture.w, mStep, mWeight, htie]
+
+theorem fit_w_uniform_gen {Θ Y : Type} (fam : Family Θ Y ℝ) (y : Fin N → Y) (htie : tie.uniform = true)
+    (γ₀ : Fin (K+1) → Fin N → ℝ) (i : Nat) (k : Fin (K+1)) (n : Fin N) :
+    (fit tiny fam rule tie eps s y (i+1) γ₀).w k n = 1 / ((K+1 : ℕ) : ℝ) := by
+  obtain ⟨aux, haux⟩ := fit_eq_mStep tiny fam rule tie eps s y γ₀ i
+  rw [haux]
+  exact uniform_w_gen rule tie eps s fam y htie _ aux k n
+
+/-- M-step of the mixture on a proper two-level affiliation: balanced, concentration = clipped Banerjee value of `ρ` -/
+theorem mStep_vbalanced (ha : OrthoProtoR a) (hy : ∀ n d, y n d = a (c n) d)
+    (S : ℝ) (hS : 0 < S) (hbal : ∀ k, classMass c s k = S) (hguard : tinyV ≤ S / Real.sqrt ((K+1 : ℕ) : ℝ))
+    (p : ℝ × ℝ) (hp : LevOk K p) (aux : Fin (K+1) → Fin N → ℝ) :
+    VBalanced a (mStep (vmfFamily D lnorm lo hi tinyV) rule tie eps s y (twoLevel c p.1 p.2) aux) p.1 p.2
+      (vmfKappa D lo hi (rho K p.1 p.2)) (lnorm (vmfKappa D lo hi (rho K p.1 p.2))) := by
+  intro k
+  rw [mStep_c]
+  have hg : tinyV ≤ S * rho K p.1 p.2 := by
+    refine le_trans hguard ?_
+    rw [div_eq_mul_one_div]
+    exact mul_le_mul_of_nonneg_left (rho_lower K p.1 p.2 hp.1) hS.le
+  exact vmfMstep_twoLevel ha hy lnorm lo hi tinyV s S hS hbal p.1 p.2 hp.1 hp.pos hg k (aux k)
+
+/-- **the balanced invariant holds at every iterate of `Em.fit`** (vMF mixture, balanced noise-free orthonormal scene,
+two-level start): induction over the EM loop -/
+theorem vmf_balanced_chain (ha : OrthoProtoR a) (hy : ∀ n d, y n d = a (c n) d) (hlo : 0 < lo) (hlh : lo ≤ hi)
+    (htiny : 0 < tiny) (ht : tiny ≤ 1 / ((K+1 : ℕ) : ℝ)) (htie : tie.uniform = true)
+    (S : ℝ) (hS : 0 < S) (hbal : ∀ k, classMass c s k = S) (hguard : tinyV ≤ S / Real.sqrt ((K+1 : ℕ) : ℝ))
+    (g₀ h₀ : ℝ) (h0 : LevOk K (g₀, h₀)) (i : Nat) :
+    VBalanced a (fit tiny (vmfFamily D lnorm lo hi tinyV) rule tie eps s y (i+1) (twoLevel c g₀ h₀))
+      (levSeq D K lo hi g₀ h₀ i).1 (levSeq D K lo hi g₀ h₀ i).2
+      (vmfKappa D lo hi (rho K (levSeq D K lo hi g₀ h₀ i).1 (levSeq D K lo hi g₀ h₀ i).2))
+      (lnorm (vmfKappa D lo hi (rho K (levSeq D K lo hi g₀ h₀ i).1 (levSeq D K lo hi g₀ h₀ i).2))) := by
+  induction i with
+  | zero =>
+    rw [fit_one]
+    exact mStep_vbalanced lnorm lo hi tinyV rule tie eps s ha hy S hS hbal hguard (g₀, h₀) h0 _
+  | succ i ih =>
+    rw [fit_succ, emStep_eq]
+    have hγ : eStep tiny (vmfFamily D lnorm lo hi tinyV)
+        (fit tiny (vmfFamily D lnorm lo hi tinyV) rule tie eps s y (i+1) (twoLevel c g₀ h₀)) y
+        = twoLevel c (levSeq D K lo hi g₀ h₀ (i+1)).1 (levSeq D K lo hi g₀ h₀ (i+1)).2 := by
+      funext k n
+      rw [eStep_vbalanced ha hy lnorm lo hi tinyV tiny htiny ht _ _ _ _ _ ih
+        (fit_w_uniform_gen tiny rule tie eps s _ y htie (twoLevel c g₀ h₀) i) k n]
+      rfl
+    rw [hγ]
+    exact mStep_vbalanced lnorm lo hi tinyV rule tie eps s ha hy S hS hbal hguard _
+      (levOk_seq D K lo hi hlo hlh g₀ h₀ h0 (i+1)) _
+
+/-- a balanced model with a positive concentration and uniform weights ranks the true class strictly first -/
+theorem vbalanced_argmax (ha : OrthoProtoR a) (hy : ∀ n d, y n d = a (c n) d) (htiny : 0 < tiny)
+    (θ : Mixture (Vmf ℝ D) ℝ (K+1) N) (g h κ ℓ : ℝ) (hb : VBalanced a θ g h κ ℓ) (hg : 0 < g) (hlt : h < g)
+    (hκ : 0 < κ) (hw : ∀ k n, θ.w k n = 1 / ((K+1 : ℕ) : ℝ)) (n : Fin N) :
+    vargmax (fun k => eStep tiny (vmfFamily D lnorm lo hi tinyV) θ y k n) = c n := by
+  refine vargmax_of_strict _ (c n) fun j hj => ?_
+  rw [eStep_lt_iff tiny htiny, hw, hw]
+  have h1 : (0:ℝ) < 1 / ((K+1 : ℕ) : ℝ) := by positivity
+  refine mul_lt_mul_of_pos_left (Real.exp_lt_exp.mpr ?_) h1
+  show vmfLogPdf (θ.c j) (y n) < vmfLogPdf (θ.c (c n)) (y n)
+  rw [vmfLogPdf_balanced ha hy θ g h κ ℓ hb, vmfLogPdf_balanced ha hy θ g h κ ℓ hb, if_pos rfl, if_neg (Ne.symm hj)]
+  have := mul_lt_mul_of_pos_left (div_lt_div_of_pos_right hlt (rho_pos K g h hg)) hκ
+  linarith
+
+/-- a balanced mean direction points at its own prototype, and has unit length -/
+theorem vbalanced_points (ha : OrthoProtoR a) (θ : Mixture (Vmf ℝ D) ℝ (K+1) N) (g h κ ℓ : ℝ)
+    (hb : VBalanced a θ g h κ ℓ) (hg : 0 < g) (hlt : h < g) (k : Fin (K+1)) :
+    (∀ j, j ≠ k → ∑ d, rd (θ.c k).mean d * a j d < ∑ d, rd (θ.c k).mean d * a k d)
+      ∧ ∑ d, rd (θ.c k).mean d * rd (θ.c k).mean d = 1 := by
+  have hρ := rho_pos K g h hg
+  have e : ∀ i, ∑ d, rd (θ.c k).mean d * a i d = (if i = k then g else h) / rho K g h := by
+    intro i
+    rw [← vbalanced_inner ha θ g h κ ℓ hb k i]
+    exact Finset.sum_congr rfl fun d _ => mul_comm _ _
+  refine ⟨fun j hj => ?_, ?_⟩
+  · rw [e, e, if_pos rfl, if_neg hj]
+    exact div_lt_div_of_pos_right hlt hρ
+  · have e1 : ∀ d, rd (θ.c k).mean d * rd (θ.c k).mean d
+        = (∑ j, (if j = k then g else h) * a j d) * (∑ j, (if j = k then g else h) * a j d)
+          / (rho K g h * rho K g h) := by
+      intro d; rw [(hb k).1 d, div_mul_div_comm]
+    simp only [e1]
+    rw [← Finset.sum_div, normSq_comb ha]
+    have e2 : ∀ j : Fin (K+1), (if j = k then g else h) * (if j = k then g else h) = if j = k then g * g else h * h := by
+      intro j; split <;> rfl
+    simp only [e2]
+    rw [sum_lev, rho_sq]
+    exact div_self (by rw [← rho_sq]; exact (mul_pos hρ hρ).ne')
+
+end chain
+
+/-! ### the theorems -/
+section main
+variable {K N D : Nat} {a : Fin (K+1) → Fin D → ℝ} {c : Fin N → Fin (K+1)} {y : Fin N → Fin D → ℝ}
+
+/-- **the true partition is a stable fixed point for EVERY number of iterations (vMFMM, balanced scene)**.
+Real orthonormal prototypes, noise-free normalised observations `y n = a (c n)`, uniform mixture weights
+(`weight_constant_axis = -2`), all classes of equal positive saliency mass `S`, start = the true partition blurred by a
+uniform leak that keeps the true class the largest (`twoLevel c g₀ h₀`, `g₀ + K·h₀ = 1`, `0 ≤ h₀ < g₀`; hard start:
+`g₀ = 1`, `h₀ = 0`), concentration clipping range `0 < lo ≤ hi` (`min_concentration = 1e-10`).
+Guards: posterior denominator clamp inactive (`tiny ≤ 1/(K+1)`), resultant not floored (`tinyV ≤ S/√(K+1)`; the
+resultant of every iterate has length `S·ρ ≥ S/√(K+1)`).
+Then for every `n ≥ 1`, with `(g, h) = levSeq … (n-1)` the two posterior levels the last M-step was computed from
+(`g + K h = 1`, `0 ≤ h < g`) and `ρ = √(g² + K h²)`, the model `θ = fit n γ₀` has
+* mean directions `μ_k = (g·a_k + h·Σ_{j≠k} a_j)/ρ`, of unit length, with `μ_k·a_j < μ_k·a_k` for `j ≠ k`,
+* one common concentration `κ = vmfKappa D lo hi ρ ∈ [lo, hi]` and log-normaliser `lnorm κ`,
+* arg-max of its E-step = the true class at every observation.
+Proved by induction over the EM loop — no trajectory hypothesis.  Only `lo ≤ κ ≤ hi` and "κ is the same for all
+classes" are used about the concentration (so the value of Banerjee's quotient at `r̄ = 1`, a division by zero, is
+immaterial; by `rho_levSeq_lt_one` it can be reached only in the first M-step of the hard start, cf. `vmfKappa_one`).
+`1 ≤ K` is not needed (for one class the statement is trivial). -/
+theorem fixed_point_vmf_balanced (ha : OrthoProtoR a) (hy : ∀ n d, y n d = a (c n) d) (lnorm : ℝ → ℝ)
+    (lo hi tinyV : ℝ) (hlo : 0 < lo) (hlh : lo ≤ hi) (tiny : ℝ) (htiny : 0 < tiny) (ht : tiny ≤ 1 / ((K+1 : ℕ) : ℝ))
+    (rule : WeightRule) (tie : Tying N) (htie : tie.uniform = true) (eps : ℝ) (s : Fin N → ℝ) (S : ℝ) (hS : 0 < S)
+    (hbal : ∀ k, classMass c s k = S) (hguard : tinyV ≤ S / Real.sqrt ((K+1 : ℕ) : ℝ))
+    (g₀ h₀ : ℝ) (hgh : g₀ + K * h₀ = 1) (hh0 : 0 ≤ h₀) (hlt : h₀ < g₀) (n : Nat) (hn : 1 ≤ n) :
+    let fam := vmfFamily D lnorm lo hi tinyV
+    let θ := fit tiny fam rule tie eps s y n (twoLevel c g₀ h₀)
+    let g := (levSeq D K lo hi g₀ h₀ (n-1)).1
+    let h := (levSeq D K lo hi g₀ h₀ (n-1)).2
+    let κ := vmfKappa D lo hi (rho K g h)
+    (g + K * h = 1 ∧ 0 ≤ h ∧ h < g)
+      ∧ (lo ≤ κ ∧ κ ≤ hi)
+      ∧ (∀ k, (∀ d, rd (θ.c k).mean d = (∑ j, (if j = k then g else h) * a j d) / rho K g h)
+            ∧ (θ.c k).kappa = κ ∧ (θ.c k).logNorm = lnorm κ)
+      ∧ (∀ k, (∀ j, j ≠ k → ∑ d, rd (θ.c k).mean d * a j d < ∑ d, rd (θ.c k).mean d * a k d)
+            ∧ ∑ d, rd (θ.c k).mean d * rd (θ.c k).mean d = 1)
+      ∧ ∀ obs, vargmax (fun k => eStep tiny fam θ y k obs) = c obs := by
+  intro fam θ g h κ
+  obtain ⟨i, rfl⟩ : ∃ i, n = i + 1 := ⟨n - 1, by omega⟩
+  have h0 : LevOk K (g₀, h₀) := ⟨hgh, hh0, hlt⟩
+  have hok : LevOk K (levSeq D K lo hi g₀ h₀ i) := levOk_seq D K lo hi hlo hlh g₀ h₀ h0 i
+  have hb := vmf_balanced_chain lnorm lo hi tinyV tiny rule tie eps s ha hy hlo hlh htiny ht htie S hS hbal hguard
+    g₀ h₀ h0 i
+  have hκr := vmfKappa_range D lo hi (rho K g h) hlh
+  refine ⟨hok, hκr, hb, fun k => vbalanced_points ha θ g h κ _ hb hok.pos hok.2.2 k, fun obs => ?_⟩
+  exact vbalanced_argmax lnorm lo hi tinyV tiny ha hy htiny θ g h κ _ hb hok.pos hok.2.2
+    (lt_of_lt_of_le hlo hκr.1) (fit_w_uniform_gen tiny rule tie eps s fam y htie (twoLevel c g₀ h₀) i) obs
+
+/-- the hard start (`γ₀` = one-hot truth) is the case `g₀ = 1`, `h₀ = 0`: arg-max = truth after every number of
+iterations -/
+theorem fixed_point_vmf_balanced_hard (ha : OrthoProtoR a) (hy : ∀ n d, y n d = a (c n) d) (lnorm : ℝ → ℝ)
+    (lo hi tinyV : ℝ) (hlo : 0 < lo) (hlh : lo ≤ hi) (tiny : ℝ) (htiny : 0 < tiny) (ht : tiny ≤ 1 / ((K+1 : ℕ) : ℝ))
+    (rule : WeightRule) (tie : Tying N) (htie : tie.uniform = true) (eps : ℝ) (s : Fin N → ℝ) (S : ℝ) (hS : 0 < S)
+    (hbal : ∀ k, classMass c s k = S) (hguard : tinyV ≤ S / Real.sqrt ((K+1 : ℕ) : ℝ))
+    (n : Nat) (hn : 1 ≤ n) (obs : Fin N) :
+    vargmax (fun k => eStep tiny (vmfFamily D lnorm lo hi tinyV)
+      (fit tiny (vmfFamily D lnorm lo hi tinyV) rule tie eps s y n (hardStart c)) y k obs) = c obs :=
+  (fixed_point_vmf_balanced ha hy lnorm lo hi tinyV hlo hlh tiny htiny ht rule tie htie eps s S hS hbal hguard 1 0
+    (by simp) le_rfl one_pos n hn).2.2.2.2 obs
+
+/-- **vMF M-step on the hard true partition** (any class masses): the mean direction of class `k` is EXACTLY its
+prototype, the mean resultant length is 1.  Guard: class mass positive and not below the resultant floor. -/
+theorem vmfMstep_hard (ha : OrthoProtoR a) (hy : ∀ n d, y n d = a (c n) d) (lnorm : ℝ → ℝ) (lo hi tinyV : ℝ)
+    (s : Fin N → ℝ) (k : Fin (K+1)) (hpos : 0 < ∑ n, hardStart c k n * s n)
+    (hguard : tinyV ≤ ∑ n, hardStart c k n * s n) (aux : Fin N → ℝ) :
+    (∀ d, rd (vmfMstep lnorm lo hi tinyV N (fun n => hardStart c k n * s n) aux y).mean d = a k d)
+      ∧ (vmfMstep lnorm lo hi tinyV N (fun n => hardStart c k n * s n) aux y).kappa = vmfKappa D lo hi 1
+      ∧ (vmfMstep lnorm lo hi tinyV N (fun n => hardStart c k n * s n) aux y).logNorm
+          = lnorm (vmfKappa D lo hi 1) := by
+  obtain ⟨hm, hκ, hl⟩ := vmfMstep_fields lnorm lo hi tinyV (fun n => hardStart c k n * s n) aux y
+  set m := ∑ n, hardStart c k n * s n with hmdef
+  have hr : ∀ d, ∑ n, hardStart c k n * s n * y n d = m * a k d := by
+    intro d
+    rw [resultant_scene a c y hy]
+    simp only [classMass_hard]
+    rw [Finset.sum_eq_single k]
+    · rw [if_pos rfl]
+    · intro j _ hj; simp [hj]
+    · simp
+  have hn : Real.sqrt (∑ d, (∑ n, hardStart c k n * s n * y n d) * (∑ n, hardStart c k n * s n * y n d)) = m := by
+    simp only [hr]
+    have e : ∀ d, m * a k d * (m * a k d) = m * m * (a k d * a k d) := by intro d; ring
+    simp only [e]
+    rw [← Finset.mul_sum, ha k k, if_pos rfl, mul_one]
+    exact Real.sqrt_mul_self hpos.le
+  have hκ' : (vmfMstep lnorm lo hi tinyV N (fun n => hardStart c k n * s n) aux y).kappa = vmfKappa D lo hi 1 := by
+    rw [hκ, hn, div_self hpos.ne']
+  refine ⟨fun d => ?_, hκ', by rw [hl, hκ']⟩
+  rw [hm, hn, max_eq_left hguard, hr, mul_div_cancel_left₀ _ hpos.ne']
+
+/-- **the true partition survives one EM round (vMFMM), any weight rule / tying, any class masses**.  Hard start on
+the truth, every class mass positive and `≥ tinyV`.  Then `θ₁ = fit … 1 γ_true` (the first M-step) has `μ_k = a_k`
+EXACTLY and equal concentrations `κ₁ = vmfKappa D lo hi 1 ∈ [lo, hi]`, and the E-step of `θ₁` ranks the true class
+strictly first at every observation where the explicit weight margin `π_j < π_c·exp(κ₁)` holds. -/
+theorem vmf_round_hard (ha : OrthoProtoR a) (hy : ∀ n d, y n d = a (c n) d) (lnorm : ℝ → ℝ) (lo hi tinyV : ℝ)
+    (tiny : ℝ) (htiny : 0 < tiny) (rule : WeightRule) (tie : Tying N) (eps : ℝ) (s : Fin N → ℝ)
+    (hmass : ∀ k, 0 < ∑ n, hardStart c k n * s n) (hguard : ∀ k, tinyV ≤ ∑ n, hardStart c k n * s n) :
+    let fam := vmfFamily D lnorm lo hi tinyV
+    let θ₁ := fit tiny fam rule tie eps s y 1 (hardStart c)
+    (∀ k, (∀ d, rd (θ₁.c k).mean d = a k d) ∧ (θ₁.c k).kappa = vmfKappa D lo hi 1
+        ∧ (θ₁.c k).logNorm = lnorm (vmfKappa D lo hi 1))
+      ∧ (∀ n j, j ≠ c n → θ₁.w j n < θ₁.w (c n) n * Real.exp (vmfKappa D lo hi 1) →
+            eStep tiny fam θ₁ y j n < eStep tiny fam θ₁ y (c n) n)
+      ∧ ∀ n, (∀ j, j ≠ c n → θ₁.w j n < θ₁.w (c n) n * Real.exp (vmfKappa D lo hi 1)) →
+            vargmax (fun k => eStep tiny fam θ₁ y k n) = c n := by
+  intro fam θ₁
+  have hpar : ∀ k, (∀ d, rd (θ₁.c k).mean d = a k d) ∧ (θ₁.c k).kappa = vmfKappa D lo hi 1
+      ∧ (θ₁.c k).logNorm = lnorm (vmfKappa D lo hi 1) := by
+    intro k
+    have hθ : θ₁.c k = vmfMstep lnorm lo hi tinyV N (fun n => hardStart c k n * s n) (fun _ => 1) y :=
+      mStep_c fam rule tie eps s y (hardStart c) (fun _ _ => 1) k
+    rw [hθ]
+    exact vmfMstep_hard ha hy lnorm lo hi tinyV s k (hmass k) (hguard k) _
+  have hlp : ∀ n k, fam.logPdf (θ₁.c k) (y n)
+      = vmfKappa D lo hi 1 * (if c n = k then 1 else 0) - lnorm (vmfKappa D lo hi 1) := by
+    intro n k
+    show vmfLogPdf (θ₁.c k) (y n) = _
+    simp only [vmfLogPdf, vsum_eq_sum, hy, (hpar k).1, (hpar k).2.1, (hpar k).2.2, ha (c n) k]
+  have hrank : ∀ n j, j ≠ c n → θ₁.w j n < θ₁.w (c n) n * Real.exp (vmfKappa D lo hi 1) →
+      eStep tiny fam θ₁ y j n < eStep tiny fam θ₁ y (c n) n := by
+    intro n j hj hm
+    rw [eStep_lt_iff tiny htiny, hlp, hlp, if_pos rfl, if_neg (Ne.symm hj), mul_one, mul_zero, zero_sub,
+      sub_eq_add_neg, Real.exp_add, ← mul_assoc]
+    exact mul_lt_mul_of_pos_right hm (Real.exp_pos _)
+  exact ⟨hpar, hrank, fun n h => vargmax_of_strict _ (c n) fun j hj => hrank n j hj (h j hj)⟩
+
+/-- hard start, balanced or not: after the FIRST M-step every mean direction is exactly its prototype -/
+theorem vmf_first_mstep_hard (ha : OrthoProtoR a) (hy : ∀ n d, y n d = a (c n) d) (lnorm : ℝ → ℝ) (lo hi tinyV : ℝ)
+    (tiny : ℝ) (rule : WeightRule) (tie : Tying N) (eps : ℝ) (s : Fin N → ℝ)
+    (hmass : ∀ k, 0 < ∑ n, hardStart c k n * s n) (hguard : ∀ k, tinyV ≤ ∑ n, hardStart c k n * s n)
+    (k : Fin (K+1)) (d : Fin D) :
+    rd ((fit tiny (vmfFamily D lnorm lo hi tinyV) rule tie eps s y 1 (hardStart c)).c k).mean d = a k d := by
+  have hθ : (fit tiny (vmfFamily D lnorm lo hi tinyV) rule tie eps s y 1 (hardStart c)).c k
+      = vmfMstep lnorm lo hi tinyV N (fun n => hardStart c k n * s n) (fun _ => 1) y :=
+    mStep_c (vmfFamily D lnorm lo hi tinyV) rule tie eps s y (hardStart c) (fun _ _ => 1) k
+  rw [hθ]
+  exact (vmfMstep_hard ha hy lnorm lo hi tinyV s k (hmass k) (hguard k) (fun _ => 1)).1 d
+
+/-- with uniform weights the margin of `vmf_round_hard` is just `0 < κ₁`, i.e. `0 < lo ≤ hi` -/
+theorem vmf_round_hard_uniform (ha : OrthoProtoR a) (hy : ∀ n d, y n d = a (c n) d) (lnorm : ℝ → ℝ) (lo hi tinyV : ℝ)
+    (hlo : 0 < lo) (hlh : lo ≤ hi) (tiny : ℝ) (htiny : 0 < tiny) (rule : WeightRule) (tie : Tying N)
+    (htie : tie.uniform = true) (eps : ℝ) (s : Fin N → ℝ)
+    (hmass : ∀ k, 0 < ∑ n, hardStart c k n * s n) (hguard : ∀ k, tinyV ≤ ∑ n, hardStart c k n * s n) (n : Fin N) :
+    vargmax (fun k => eStep tiny (vmfFamily D lnorm lo hi tinyV)
+      (fit tiny (vmfFamily D lnorm lo hi tinyV) rule tie eps s y 1 (hardStart c)) y k n) = c n := by
+  apply (vmf_round_hard ha hy lnorm lo hi tinyV tiny htiny rule tie eps s hmass hguard).2.2 n
+  intro j _
+  rw [fit_w_uniform_gen tiny rule tie eps s _ y htie (hardStart c) 0, fit_w_uniform_gen tiny rule tie eps s _ y htie
+    (hardStart c) 0]
+  have hpos : 0 < 1 / ((K + 1 : ℕ) : ℝ) := by positivity
+  have hκ : 0 < vmfKappa D lo hi 1 := lt_of_lt_of_le hlo (vmfKappa_range D lo hi 1 hlh).1
+  have : 1 < Real.exp (vmfKappa D lo hi 1) := by
+    have := Real.add_one_lt_exp hκ.ne'
+    linarith
+  nlinarith
+
+/-! ### a concrete scene (non-vacuity) -/
+
+/-- standard basis of `ℝ²` as prototypes -/
+def a2R : Fin 2 → Fin 2 → ℝ := fun k d => if k = d then 1 else 0
+
+theorem ortho_a2R : OrthoProtoR a2R := by
+  intro j k
+  fin_cases j <;> fin_cases k <;> simp [a2R]
+
+theorem half_le_inv_sqrt_two : (1/2 : ℝ) ≤ 1 / Real.sqrt ((1+1 : ℕ) : ℝ) := by
+  have h2 : (0:ℝ) < ((1+1 : ℕ) : ℝ) := by positivity
+  have hs : 0 < Real.sqrt ((1+1 : ℕ) : ℝ) := Real.sqrt_pos.mpr h2
+  rw [div_le_div_iff₀ (by norm_num) hs, one_mul, one_mul]
+  have : Real.sqrt ((1+1 : ℕ) : ℝ) ≤ Real.sqrt (2 * 2) := Real.sqrt_le_sqrt (by push_cast; norm_num)
+  rwa [Real.sqrt_mul_self (by norm_num)] at this
+
+/-- non-vacuity of `fixed_point_vmf_balanced`: two classes on the standard basis of `ℝ²`, one observation each,
+`lnorm ≡ 0`, clipping range `[1, 2]`, resultant floor `1/2`, blurred start `g₀ = 3/4`, `h₀ = 1/4` — for ALL `n ≥ 1` -/
+example (n : Nat) (hn : 1 ≤ n) (obs : Fin 2) :
+    vargmax (fun k => eStep (1/4) (vmfFamily 2 (fun _ => 0) 1 2 (1/2))
+      (fit (1/4) (vmfFamily 2 (fun _ => 0) 1 2 (1/2)) WeightRule.unitNorm ⟨true, 1, tab fun _ => 0⟩ 0
+        (fun _ => 1) a2R n (twoLevel (fun m : Fin 2 => m) (3/4) (1/4))) a2R k obs) = obs :=
+  (fixed_point_vmf_balanced ortho_a2R (c := fun m : Fin 2 => m) (fun _ _ => rfl) (fun _ => 0) 1 2 (1/2) one_pos
+    (by norm_num) (1/4) (by norm_num) (by norm_num) WeightRule.unitNorm ⟨true, 1, tab fun _ => 0⟩ rfl 0 (fun _ => 1) 1
+    one_pos (fun k => by fin_cases k <;> simp [classMass]) (by rw [one_div]; simpa using half_le_inv_sqrt_two)
+    (3/4) (1/4) (by norm_num) (by norm_num) (by norm_num) n hn).2.2.2.2 obs
+
+/-- the same scene from the hard start, for all `n ≥ 1` -/
+example (n : Nat) (hn : 1 ≤ n) (obs : Fin 2) :
+    vargmax (fun k => eStep (1/4) (vmfFamily 2 (fun _ => 0) 1 2 (1/2))
+      (fit (1/4) (vmfFamily 2 (fun _ => 0) 1 2 (1/2)) WeightRule.unitNorm ⟨true, 1, tab fun _ => 0⟩ 0
+        (fun _ => 1) a2R n (hardStart fun m : Fin 2 => m)) a2R k obs) = obs :=
+  fixed_point_vmf_balanced_hard ortho_a2R (c := fun m : Fin 2 => m) (fun _ _ => rfl) (fun _ => 0) 1 2 (1/2) one_pos
+    (by norm_num) (1/4) (by norm_num) (by norm_num) WeightRule.unitNorm ⟨true, 1, tab fun _ => 0⟩ rfl 0 (fun _ => 1) 1
+    one_pos (fun k => by fin_cases k <;> simp [classMass]) (by rw [one_div]; simpa using half_le_inv_sqrt_two) n hn obs
+
+end main
 
 end PbBss.FixedPoint
